@@ -229,7 +229,7 @@ func scenarioC15(r *Run) {
 		sw.FailCode = []codes.Code{codes.Internal, codes.Unavailable, codes.NotFound, codes.ResourceExhausted, codes.PermissionDenied, codes.Aborted}[k]
 		codeName = ":" + sw.FailCode.String()
 	}
-	family := r.Ch.Choose(7, "family")
+	family := r.Ch.Choose(8, "family")
 	second := r.Ch.Choose(5, "second-fault") == 1
 	p := r.AddPeer()
 	r.StartAgent()
@@ -387,6 +387,34 @@ func scenarioC15(r *Run) {
 		}
 		if b != nil && len(r.Violations) == 0 {
 			del(b)
+		}
+	case 7:
+		// two sessions; an Update PDR (another precedence) of the second, which then
+		// goes away: the counter cells it gives back must be its own
+		a := est(false)
+		b := est(false)
+		_ = a
+		if b != nil && len(r.Violations) == 0 && len(b.PDRs) > 0 {
+			up := b.PDRs[r.Ch.Choose(len(b.PDRs), "upd-pdr")].clone()
+			if up.TEIDChoose {
+				up.TEIDChoose, up.TEID, up.TEIDAddr = false, up.GotTEID, ip4(N3Addr)
+			}
+			up.Precedence = uint32(10 + r.Ch.Choose(200, "upd-prec"))
+			f0 := firedBefore()
+			res := p.Modify(b, &ModSpec{Tag: "uP:prec", UpdatePDR: []*PDRSpec{up}})
+			if firedBefore() > f0 {
+				if r.faultedMod == nil {
+					r.faultedMod = map[uint64]bool{}
+				}
+				r.faultedMod[b.UPSEID] = true
+				r.SetFaultCtx("write-failed-in-modification:" + sw.FailKind)
+				r.Fault("p4-write-failed-in-modification")
+			}
+			r.Op("modify cp=%d: Update PDR %d (precedence %d) -> accepted=%v", b.CPSEID, up.ID, up.Precedence, res.Accepted)
+			checkP4IDs(r, "C15", fmt.Sprintf("after an Update PDR of cp=%d", b.CPSEID))
+			if len(r.Violations) == 0 {
+				del(b)
+			}
 		}
 	case 6:
 		// The terminations tables of the switch are full (no injected fault: the
